@@ -260,6 +260,26 @@ where
     }
 }
 
+/// Returns `Pending` once (after waking itself), `Ready` afterwards.
+struct YieldNow(bool);
+
+impl std::future::Future for YieldNow {
+    type Output = ();
+
+    fn poll(
+        mut self: std::pin::Pin<&mut Self>,
+        cx: &mut std::task::Context<'_>,
+    ) -> std::task::Poll<()> {
+        if self.0 {
+            std::task::Poll::Ready(())
+        } else {
+            self.0 = true;
+            cx.waker().wake_by_ref();
+            std::task::Poll::Pending
+        }
+    }
+}
+
 pub(crate) struct CacheProcessor<V, U, CB, S> {
     insert_buf_rx: Receiver<Item<V>>,
     stop_rx: Receiver<()>,
@@ -784,6 +804,11 @@ where
                         }
                         #[cfg(transparencies_stretto_verif)]
                         self.verif_guard.inc(&crate::verif::counters::TICKS_DONE);
+                        // With a cleanup interval shorter than the time one tick takes, the timer
+                        // is ready again at once and this task would never return to its executor:
+                        // on a single-threaded executor nothing else (the callers included) would
+                        // ever run again. Give the others a turn after every tick.
+                        YieldNow(false).await;
                     },
                     wg = self.clear_rx.recv().fuse() => {
                         #[cfg(transparencies_stretto_verif)]
